@@ -138,7 +138,9 @@ Section Manager.
   | OImport (i s : nat)
   | OMerge (i j : nat)                  (* UserDbMerger(db i) << DbSource(db j), no snapshot in between *)
   | OUBackup (i s : nat)                (* UserDbHelper(db i).UniformBackup(file s) *)
-  | OURestore (i s : nat).              (* UserDbHelper(db i).UniformRestore(file s) *)
+  | OURestore (i s : nat)               (* UserDbHelper(db i).UniformRestore(file s) *)
+  | OForeign (i : nat).                 (* the user db of installation i now carries another installation's /user_id ("zz"): a db
+                                           copied in, or the installation id changed - the next Backup re-creates the metadata *)
 
   Definition uid_of (i : nat) : bytes := x75 :: print_N (N.of_nat i).           (* "u<i>" *)
   Definition dict_name : bytes := [x64; x69; x63; x74].                          (* "dict" *)
@@ -209,6 +211,7 @@ Section Manager.
         | Some f => (set_db w i (uniform_restore f (get_db w i)), 1%Z)
         | None => (w, NOFILE)
         end
+    | OForeign i => (set_db w i (meta_update mk_user_id [x7a; x7a] (get_db w i)), 1%Z)
     end.
 
   Definition step (w : world) (o : op) : world := fst (step_ret w o).
